@@ -36,7 +36,12 @@ def tasks(tier):
         for init in ("empty", "prefilled"):
             out.append({"kind": "uf", "alphabet": alpha, "init": init,
                         "depth": d + (1 if alpha == "ints" else 0)})
-    out.append({"kind": "pq", "depth": {"quick": 5, "thorough": 7}[tier]})
+    d = {"quick": 5, "thorough": 7}[tier]
+    # the search is split by the first event (every history of length >= 1 starts with exactly one of them);
+    # the task with the empty prefix explores depth 1 only so that the initial state is covered too
+    out.append({"kind": "pq", "depth": 1, "prefix": []})
+    for ev in [["push", x, p] for p in PRIOS for x in ITEMS] + [["get"], ["pop"], ["front"], ["empty"]]:
+        out.append({"kind": "pq", "depth": d - 1, "prefix": [ev]})
     return out
 
 
@@ -274,8 +279,13 @@ def _run_pq(task, rep: Report):
     events = [("push", x, p) for p in PRIOS for x in ITEMS] + [("get",), ("pop",), ("front",), ("empty",)]
     icls = "pq"
 
+    prefix = [tuple(e) for e in task.get("prefix", [])]
+
     def make():
-        return PQState(PriorityQueue)
+        st = PQState(PriorityQueue)
+        for e in prefix:            # the task's share of the search: all histories starting with `prefix`
+            apply(st, e)
+        return st
 
     def apply(st: PQState, ev):
         kind = ev[0]
